@@ -27,6 +27,9 @@ LEVEL_TEXT = (
     "POSIX flavour: C02_get_paths_spec, C02_virt_normal, C02_virt_spec, C02_alias_same, C02_real_is_base_plus_virt, "
     "C02_confined, C02_up_clamps, C02_cwd_invariant, C02_cdup_is_parent are proved for every base path, every absolute "
     "working directory (even with '..'), every string and every CWD/CDUP history (Closed under the global context). "
+    "C02_names_are_kept, C02_decorated_dotdot_is_a_name_r/_l, C02_decorated_dotdot_not_folded: a segment folds only when it is exactly '..'; "
+    "'..' (or any text) decorated with blanks, TABs, NBSP or any other code point is a name and reaches the real and the virtual path "
+    "unchanged, for every base, working directory, decoration and sequence of names. "
     "Windows flavour of base_path: the property is refuted (C02_confined_win_refuted, C02_virt_is_location_win_refuted, "
     "C02_drive_escape_win_refuted; known finding F11) and proved for inputs whose resolved components contain neither "
     "backslash nor colon (C02_confined_win_partial). Histories on ONE control connection with several logins "
@@ -41,7 +44,8 @@ LEVEL_TEXT = (
     "on every run, that the source of get_paths reads nothing of the connection but user.base_path and current_directory and "
     "keeps no state, and that transfer workers use the path resolved when the command was handled. The models are hand-written; the "
     "tie is a bounded-exhaustive correspondence with the real pathlib and the real get_paths (about 3*10^5 cases per quick "
-    "run), histories on one reused Connection object, and wire-level sessions with re-logins on simnet with a recording backend."
+    "run), histories on one reused Connection object, wire-level sessions with re-logins on simnet with a recording backend, and wire-level "
+    "sessions with the stock PathIO on the real file system (confinement of every path handed to the backend after the kernel's '..' resolution)."
 )
 LEVEL_NOTE = (
     "Trusted: Coq kernel; extraction cross-checked with vm_compute; harness. Modelled, not verified: CPython 3.12 pathlib "
@@ -1360,7 +1364,16 @@ def known(ctx):
 # ---------------------------------------------------------------- entry points
 def correspondence(ctx):
     ctx.extra["rule"] = (
-        "streams: (unicode) every string of <= 3 segments (4 thorough) over 16 segments made of compatibility look-alikes of "
+        "streams: (blanks) '..' and '.' decorated with white space before/after (blank, TAB, NBSP, EM SPACE, US; 16 segments, every string of "
+        "<= 3 segments (4 thorough) x 3 prefixes, plus each of the 27 str.isspace() code points around '..' / '.' in first and inner "
+        "position) on 8 (flavour, base, cwd) pairs whose bases / working directories carry such names too; the same forms are mixed "
+        "into the random long paths and the session / wire argument lists (inner positions over the wire: parse_command strips the end "
+        "of a command line); (realfs) wire sessions on the real server with the STOCK PathIO over a fresh directory tree on the real file "
+        "system (a backend that interprets '..'), base directories holding directories literally named '.. ', '..<TAB>', ' ..', '. ', "
+        "'..<NBSP>' and same-named files next to the base: every path handed to PathIO must normalise (os.path.normpath) to a location "
+        "inside base_path(current user) and contain no '..', nothing delivered may carry bytes of an outside file, the tree outside the "
+        "base must be byte-identical afterwards, and the wire oracle (path = base + normalize(cwd, arg)) holds; "
+        "(unicode) every string of <= 3 segments (4 thorough) over 16 segments made of compatibility look-alikes of "
         "'.', '..', '/', '\\', ':' and letters (U+2024 U+FF0E U+2025 U+FE52 U+FF0F U+FF3C U+FF1A U+FF41, decomposed/composed e-acute, "
         "U+2215) x 3 prefixes on 8 (flavour, base, cwd) pairs; (deferred, inside wire) transfers answered 150 whose data connection "
         "arrives after a CWD / CDUP / re-login: the backend path must be base(user at the command) + normalize(cwd at the command, arg); "
@@ -1420,14 +1433,16 @@ SEARCH_BUDGET_S = 180
 def search(ctx):
     """the oracle already ran on every real output; when an obligation or the tie is broken and no failing input
     was found yet, widen the exhaustive layers -- within SEARCH_BUDGET_S seconds of wall time, so that the check
-    always ends with a verdict: look-alike names one segment deeper, the part of the 3-segment layer the quick
+    always ends with a verdict: look-alike names and white-space decorated '..' one segment deeper, the part of the 3-segment layer the quick
     run spread elsewhere, a 32nd of the 4-segment layer, more random long paths"""
     if ctx.violations or ctx.tier == "thorough" or ctx.exe is None:
         return
     xcheck = []
-    third = SEARCH_BUDGET_S / 3
+    third = SEARCH_BUDGET_S / 4
     try:
         stream_unicode(ctx, xcheck, k=4, deadline=time.time() + third)
+        if not ctx.violations:
+            stream_blanks(ctx, xcheck, k=4, deadline=time.time() + third)
         if not ctx.violations:
             stream_get_paths(ctx, xcheck, k=3, n_random=8000, layer_offsets=(1, 2), skip_short=True, deadline=time.time() + third)
         if not ctx.violations:
